@@ -42,14 +42,14 @@ def absorb(ctx, summ, how, spec):
     ctx.evaluations += summ["vectors"]
     ctx.traces += summ["vectors"]
     ctx.nontrivial_extra += summ["distinct"]
-    for s in summ.get("samples", []):
+    for s in (summ.get("samples") or []):
         ctx.sample(s)
     if summ.get("unreproduced", 0) > 0:
         raise core.Broken("%d disagreements did not reproduce when re-run alone" % summ["unreproduced"])
     shown = {}
-    for dg in summ["disagreements"]:
+    for dg in (summ.get("disagreements") or []):
         shown.setdefault(dg["sig"], dg)
-    for sig, n in summ["by_sig"].items():
+    for sig, n in (summ.get("by_sig") or {}).items():
         dg = shown.get(sig)
         for _ in range(1):
             ctx.violation(sig, dg["what"] if dg else "disagreement with the specification",
